@@ -84,8 +84,9 @@ func physicalPlaces(cl *simCluster, ds uuid.UUID, ids []int) map[int][]string {
 		if d == nil {
 			continue
 		}
-		for pi := 0; pi < d.VerifPartitionCount(); pi++ {
-			p := d.VerifPartitionAt(pi)
+		for k := 0; k < d.VerifPartitionCount(); k++ {
+			p := d.VerifPartitionAt(k)
+			pi := cl.canonIndex(ds, p.Id()) // the partition's place in the catalogue as created, not in this node's live list
 			for _, id := range ids {
 				if _, err := p.Index().Get(rid(id)); err == nil {
 					out[id] = append(out[id], fmt.Sprintf("%d@%d", pi, n))
@@ -100,9 +101,12 @@ func physicalPlaces(cl *simCluster, ds uuid.UUID, ids []int) map[int][]string {
 }
 
 func expectedPlaces(cl *simCluster, ds uuid.UUID, owner int) []string {
-	d := cl.dataset(cl.ids[0], ds)
 	var r []string
-	for _, n := range d.VerifPartitionAt(owner).NodeIds() {
+	p := cl.partitionByCanonIndex(cl.ids[0], ds, owner)
+	if p == nil {
+		return []string{"partition-missing"}
+	}
+	for _, n := range p.NodeIds() {
 		r = append(r, fmt.Sprintf("%d@%d", owner, n))
 	}
 	sort.Strings(r)
@@ -143,8 +147,16 @@ func runClusterWrites(c *Ctx, r *Rng, hno int) {
 	for op := 0; op < nOps; op++ {
 		entry := cl.ids[r.Intn(N)]
 		srv := cl.nodes[entry].dmSrv
-		kind := r.Intn(6)
+		kind := r.Intn(7)
 		switch kind {
+		case 6: // reads through the entry node: they must not change where anything is routed afterwards
+			d := cl.dataset(entry, dsId)
+			l, b, serr := d.SizeInfo(ctx)
+			_, qerr := d.Search(ctx, amath.Vector{float32(r.Intn(100)), float32(r.Intn(100))}, uint(1+r.Intn(5)))
+			_, lerr := cl.nodes[entry].node.DatasetManager.List(ctx, true)
+			c.OpLocal("reads via node %d: SizeInfo -> len=%d bytes=%d err=%v; Search err=%v; List(with size) err=%v", entry, l, b, serr, qerr, lerr)
+			c.Count("write:reads-between")
+			// (no assertion on the numbers here: a follower replica may not have applied the last write yet)
 		case 0, 1, 2: // single insert / update / remove
 			id := r.Intn(universe)
 			wrong := r.Intn(8) == 0 && kind != 2
